@@ -273,3 +273,30 @@ def c07_5(R):
         R.ok("window-update-predicate", w.name, "(rx_window()==0) xor (last_sent_window==0)")
     else:
         R.fail([w.name, "window-update-predicate-shape"], "should_send_window_update is no longer (current window == 0) xor (last sent window == 0)", where=w.where(), instance="window-update-predicate")
+
+
+@rule("C07.6", ["C07", "C04"], ["E6", "E7"], "window updates are suppressed only after the remote side closed",
+      "should_send_window_update returns false early only under state.is_remote_fin_or_later() = true, which holds exactly for {LastAck, Closed} (the peer will send no more data); every other false is "
+      "the 'window did not cross zero' case. (While we have only closed our own direction - FinWait1/FinWait2 - the peer still sends and must learn that the window re-opened.)")
+def c07_6(R):
+    from utpsa.discr import bool_fn_variant_table
+    w = R.body(VS + "::should_send_window_update")
+    n = 0
+    for it, cls in ret_assignments(w):
+        if cls != "const:0":
+            continue
+        n += 1
+        descs = [d for c, truth, d, *_ in controlling(w, it.bb)]
+        calls = [d for d in descs if d.startswith("call:")]
+        if any(d == "call:VirtualSocketState::is_remote_fin_or_later=true" for d in calls):
+            R.ok("no-update-after-remote-fin", w.name, "early false under is_remote_fin_or_later()")
+        elif any(d.startswith("call:") and d.endswith("=true") for d in calls):
+            R.fail([w.name, "early-false-under", ",".join(sorted(calls))], "window updates are suppressed under %s, not (only) after the remote FIN: a peer that still sends never learns that the window re-opened" % ", ".join(sorted(calls)), where=it.where(), instance="no-update-after-remote-fin")
+        else:
+            R.ok("false=not-changed", w.name, "window did not cross zero")
+    R.floor("false exits of should_send_window_update", n, 2)
+    tab = bool_fn_variant_table(R.body("stream_dispatch::VirtualSocketState::is_remote_fin_or_later"))
+    if tab and tab[True] == {"LastAck", "Closed"}:
+        R.ok("is_remote_fin_or_later-table", "VirtualSocketState", "true for {LastAck, Closed}")
+    else:
+        R.fail(["VirtualSocketState::is_remote_fin_or_later", "table", str(sorted(tab[True]) if tab else None)], "is_remote_fin_or_later is no longer true exactly for LastAck/Closed", instance="is_remote_fin_or_later-table")
